@@ -1483,6 +1483,18 @@ def probe_partial_initialization(ctx):
             continue
         ctx.count("probe.partial_initialization")
         ctx.case({"probe": "partial-initialization", "demo": name}, nontrivial=True)
+        # ... and the run itself is well defined: compartments the explicit initialization does not list start empty, everything stays finite
+        try:
+            r_part = at.run_model(st, P.framework, ps)
+            bad_nan = [c.name for pop in r_part.model.pops for c in pop.comps if not np.isfinite(np.asarray(c.vals, dtype=float)).all()]
+            started = {(c.name, pop.name): float(np.asarray(c.vals, dtype=float)[0]) for pop in r_part.model.pops for c in pop.comps}
+            not_zero = [k for k in drop if abs(started.get(tuple(k), 0.0)) > 0]
+        except Exception as e:
+            bad_nan, not_zero = [f"run raised {type(e).__name__}: {str(e)[:100]}"], []
+        if bad_nan or not_zero:
+            ctx.violation({"api": "Initialization.apply", "case": "unlisted-compartments-not-started-empty"},
+                          f"{name}: a run from an explicit Initialization that lists {len(keys) - len(drop)} of {len(keys)} compartments: non-finite values in {bad_nan[:4]}; unlisted compartments that do not start at 0: {not_zero[:4]}",
+                          {"probe": "partial-initialization", "demo": name, "dropped": [list(k) for k in drop]})
         d = first_diff(before, after)
         if before != after:
             ctx.violation({"api": "run_model", "case": "parset-with-partial-initialization-modified"},
@@ -1555,6 +1567,102 @@ def probe_failed_calibration(ctx):
                           {"probe": "failed-calibration", "demo": name})
 
 
+def probe_scenario_on_transfer(ctx):
+    """Directed probe: building the parameter set of a scenario leaves the parameter set it was given untouched -- also when the scenario overwrites a TRANSFER between
+    populations or an INTERACTION weight (stored apart from the ordinary parameters)."""
+    import atomica as at
+    import sciris as sc
+
+    for name in (["tb"] if ctx.quick else ["tb", "combined"]):
+        try:
+            P = sc.dcp(demo_master(name))
+            ps = P.parsets[0]
+            groups = [(g, dict(getattr(ps, g))) for g in ("transfers", "interactions") if len(getattr(ps, g))]
+            before = snapshot(ps)
+            done = []
+            for gname, g in groups:
+                tname = list(g.keys())[0]
+                frm = list(g[tname].keys())[0]
+                to = list(g[tname][frm].ts.keys())[0]
+                y0 = float(P.settings.sim_start) + 2
+                sc_ = at.ParameterScenario(name="s", scenario_values={tname: {(frm, to): {"t": [y0], "y": [0.123]}}})
+                new = sc_.get_parset(ps, P)
+                done.append((gname, tname, frm, to))
+            after = snapshot(ps)
+        except Exception as e:
+            ctx.notes.append(f"scenario-on-transfer probe on {name}: {e!r}"[:200])
+            continue
+        ctx.count("probe.scenario_on_transfer")
+        ctx.case({"probe": "scenario-on-transfer", "demo": name}, nontrivial=True)
+        if before != after:
+            ctx.violation({"api": "ParameterScenario.get_parset", "case": "caller-parset-modified"},
+                          f"{name}: ParameterScenario.get_parset on {done} changed the ParameterSet it was given: {str(first_diff(before, after))[:300]}", {"probe": "scenario-on-transfer", "demo": name})
+
+
+def probe_demo_independence(ctx):
+    """Directed probe: two projects made by at.demo(name) in one process are independent objects -- editing the framework of one changes nothing in the other,
+    nor in a third one created afterwards."""
+    import atomica as at
+
+    for name in (["udt"] if ctx.quick else ["udt", "tb_simple", "sir"]):
+        try:
+            P1 = at.demo(name, do_run=False)
+            P2 = at.demo(name, do_run=False)
+            tables = lambda F: {k: getattr(F, k).copy(deep=True) for k in ("comps", "characs", "pars", "interactions")}
+            same_tables = lambda a, b: all(a[k].equals(b[k]) for k in a)
+            ref = tables(P2.framework)
+            same_obj = P1.framework is P2.framework
+            col = "maximum value"
+            par0 = P1.framework.pars.index[0]
+            P1.framework.pars.at[par0, col] = 0.123456
+            P1.framework.pars.at[par0, "display name"] = "edited in project one"
+            now = tables(P2.framework)
+            P3 = at.demo(name, do_run=False)
+            third = tables(P3.framework)
+        except Exception as e:
+            ctx.notes.append(f"demo-independence probe on {name}: {e!r}"[:200])
+            continue
+        ctx.count("probe.demo_independence")
+        ctx.case({"probe": "demo-independence", "demo": name}, nontrivial=True)
+        if same_obj or not same_tables(now, ref) or not same_tables(third, ref):
+            ctx.violation({"api": "demo", "case": "projects-share-a-framework"},
+                          f"{name}: editing the framework of one at.demo('{name}') project changed {'the SAME object held by' if same_obj else ''} another project's framework{' and that of a project created afterwards' if not same_tables(third, ref) else ''}",
+                          {"probe": "demo-independence", "demo": name})
+
+
+def probe_copy_division(ctx):
+    """Directed probe: a copied / unpickled model computes what the original computes, also where a parameter function divides 0 by 0 (which the parser defines as 0)."""
+    import copy as _copy
+    import pickle as _pickle
+    from vlib import genfw
+    from atomica.model import Model
+
+    P_ = dict(timescale=None, min=None, max=None, timed=False, targetable=False, databook=False, value={})
+    for variant in ("deepcopy", "pickle"):
+        spec = {"comps": [{"name": "c0", "kind": "normal", "databook": True, "init": {"pa": 100.0}}, {"name": "c1", "kind": "normal", "databook": True, "init": {"pa": 10.0}},
+                          {"name": "c2", "kind": "normal", "databook": True, "init": {"pa": 0.0}}, {"name": "c3", "kind": "normal", "databook": True, "init": {"pa": 0.0}}],
+                "characs": [], "pars": [dict(P_, name="ra0", format="rate", function="0.1 + 0.2*c2/(c2+c3)"), dict(P_, name="ra1", format="rate", function="0.05*c2/c3 + 0.01")],
+                "transitions": [["c0", "c1", "ra0"], ["c1", "c0", "ra1"]], "pops": ["pa"], "transfers": [], "interactions": [], "settings": [2000, 2003, 1.0]}
+        try:
+            fw, data, parset, settings = genfw.build(spec)
+            m0 = Model(settings, fw, parset)
+            m1 = _copy.deepcopy(m0) if variant == "deepcopy" else _pickle.loads(_pickle.dumps(m0))
+            m1.process()
+            m0.process()
+            a = {f"{pop.name}/{c.name}": np.asarray(c.vals, dtype=float) for pop in m0.pops for c in list(pop.comps) + list(pop.pars) if c.vals is not None}
+            b = {f"{pop.name}/{c.name}": np.asarray(c.vals, dtype=float) for pop in m1.pops for c in list(pop.comps) + list(pop.pars) if c.vals is not None}
+        except Exception as e:
+            ctx.notes.append(f"copy-division probe ({variant}): {e!r}"[:200])
+            continue
+        ctx.count("probe.copy_division")
+        ctx.case({"probe": "copy-division", "variant": variant}, nontrivial=True)
+        bad = [k for k in a if not np.array_equal(a[k], b[k], equal_nan=True)] + [k for k in a if not np.isfinite(a[k]).all()]
+        if bad:
+            ctx.violation({"api": "Model.__deepcopy__", "case": "copy-computes-differently"},
+                          f"a model whose parameter functions divide 0 by 0 (c2/(c2+c3) with both empty): the {variant} copy and the original differ / are not finite in {bad[:4]}: original {a[bad[0]][:3].tolist()}, copy {b[bad[0]][:3].tolist()}",
+                          {"probe": "copy-division", "variant": variant})
+
+
 def run(ctx):
     src0 = source_digest()
     n = ctx.n(30, 600)
@@ -1573,6 +1681,9 @@ def run(ctx):
     probe_partial_initialization(ctx)
     probe_progset_assembly(ctx)
     probe_failed_calibration(ctx)
+    probe_scenario_on_transfer(ctx)
+    probe_demo_independence(ctx)
+    probe_copy_division(ctx)
     if source_digest() != src0 or any(str(x).startswith("SOURCE-CHANGED") for x in ctx.notes):
         raise RuntimeError("the atomica sources changed while the check was running; observations of different code are not comparable -- run the check again")
     ctx.exhaustive = False
@@ -1590,7 +1701,8 @@ def replay(ctx, data):
     if h is None and rp.get("probe"):
         # a directed probe: run it again on the current tree
         sub = core.Ctx(PROPERTY, "quick", 0)
-        {"partial-initialization": probe_partial_initialization, "progset-assembly": probe_progset_assembly, "failed-calibration": probe_failed_calibration}.get(rp["probe"], lambda c: None)(sub)
+        {"partial-initialization": probe_partial_initialization, "progset-assembly": probe_progset_assembly, "failed-calibration": probe_failed_calibration,
+         "scenario-on-transfer": probe_scenario_on_transfer, "demo-independence": probe_demo_independence, "copy-division": probe_copy_division}.get(rp["probe"], lambda c: None)(sub)
         for v in sub.violations:
             print("VIOLATION", json.dumps(v["key"]), v["what"][:600])
         print("replay of probe", rp["probe"], "->", "FAILS" if sub.violations else "passes")
